@@ -16,12 +16,12 @@ Definition enc_err (e : option gerr) : N :=
   end.
 
 (* a thread script as the driver writes it *)
-Definition ts_spec := (list (bspec * N) * list (N * N) * list N * N * N)%type.
+Definition ts_spec := (list (bspec * N) * list (N * N) * list N * N * N * bool)%type.
 Definition dec_ts (s : ts_spec) : tscript :=
-  let '(rs, ws, ds, cd, cs) := s in
+  let '(rs, ws, ds, cd, cs, blk) := s in
   {| t_reads := map (fun x => (bspec_val (fst x), dec_err (snd x))) rs;
      t_writes := map (fun x => (N.to_nat (fst x), dec_err (snd x))) ws;
-     t_dls := map dec_err ds; t_cdst := dec_err cd; t_csrc := dec_err cs |}.
+     t_dls := map dec_err ds; t_cdst := dec_err cd; t_csrc := dec_err cs; t_csrc_blocks := blk |}.
 
 (* observed: delivered, counted, read-side error field, write-side error field, reads, writes, deadlines *)
 Definition hobs := (bspec * N * N * N * N * N * N)%type.
@@ -30,7 +30,7 @@ Definition hobs := (bspec * N * N * N * N * N * N)%type.
 Definition chk_half (c : ts_spec * bool * hobs) : bool :=
   let '(s, cf, o) := c in
   let t := dec_ts s in
-  let out := half_pipe_full (t_reads t) (t_writes t) (t_dls t) (t_cdst t) (t_csrc t) cf in
+  let out := half_pipe_full (t_reads t) (t_writes t) (t_dls t) (t_cdst t) (if t_csrc_blocks t then None else t_csrc t) cf in
   let '(dv, cnt, re, we, nr, nw, nd) := o in
   bspec_matches dv (out_delivered out) && (out_counted out =? cnt) &&
   (enc_err (out_rd_err out) =? re) && (enc_err (out_wr_err out) =? we) &&
@@ -42,7 +42,7 @@ Definition dec_tid (n : N) : tid :=
 
 (* pair mode: observed recvA recvB bytesUp bytesDown clientErr covertErr ncloseA ncloseB
    (up reads, writes, dls) (down reads, writes, dls) *)
-Definition pobs := (bspec * bspec * N * N * N * N * N * N * (N * N * N) * (N * N * N))%type.
+Definition pobs := (bspec * bspec * N * N * N * N * N * N * (N * N * N) * (N * N * N) * N)%type.
 
 Definition final_cfg (su sd : tscript) (sched : list N) : cfg :=
   let c0 := init_cfg 0 su sd in
@@ -52,7 +52,7 @@ Definition final_cfg (su sd : tscript) (sched : list N) : cfg :=
 Definition chk_pair (c : ts_spec * ts_spec * list N * pobs) : bool :=
   let '(su, sd, sched, o) := c in
   let f := final_cfg (dec_ts su) (dec_ts sd) sched in
-  let '(ra, rb, bu, bd, ce, ve, na, nb, (ur, uw, ud), (dr, dw, dd)) := o in
+  let '(ra, rb, bu, bd, ce, ve, na, nb, (ur, uw, ud), (dr, dw, dd), nblk) := o in
   let ua := th_acc (up f) in let da := th_acc (down f) in
   finished f &&
   bspec_matches ra (delivered da) && bspec_matches rb (delivered ua) &&
@@ -62,7 +62,9 @@ Definition chk_pair (c : ts_spec * ts_spec * list N * pobs) : bool :=
   (N.of_nat (ncloseA f) =? na) && (N.of_nat (ncloseB f) =? nb + 1) &&
   (N.of_nat (n_reads ua) =? ur) && (N.of_nat (n_writes ua) =? uw) && (N.of_nat (n_dls ua) =? ud) &&
   (N.of_nat (n_reads da) =? dr) && (N.of_nat (n_writes da) =? dw) && (N.of_nat (n_dls da) =? dd) &&
-  closedA f && closedB f && (Nat.eqb (wg f) 0) && (gauge f =? 0)%Z.
+  closedA f && closedB f && (Nat.eqb (wg f) 0) && (gauge f =? 0)%Z &&
+  (* goroutines still alive after everything returned = closers inside a Close that blocks *)
+  ((match clU f with CBlocked => 1 | _ => 0 end) + (match clD f with CBlocked => 1 | _ => 0 end) =? nblk).
 
 Inductive ccase :=
   | CHalf (c : ts_spec * bool * hobs)
